@@ -434,6 +434,20 @@ Theorem C19_world_refinement : forall w ops j sd,
 Proof. exact world_side_history. Qed.
 Print Assumptions C19_world_refinement.
 
+(* random selections on a side (all_cells / empties / neighbourhood collections, select_random_empty_cell under both
+   strategies, shuffle_do / shuffle on agent sets) change no side; which generator they consume is checked on the
+   implementation: the acting side's own, never another side's (correspondence + oracle on random.getstate()) *)
+Theorem C19_draw_leaves_world : forall w s kind arg,
+  fst (wstep w (Draw s kind arg)) = w /\ fst (wstep w (SDraw s kind)) = w.
+Proof. exact draw_leaves_world. Qed.
+Print Assumptions C19_draw_leaves_world.
+
+Example C19_example_draw :
+  let w := wrun_states (init_world ex_case) [Inner (Move 0 1 0); WCopy 0 0 0] in
+  map (fun o => snd (wstep w o)) [Draw 1 0 0; Draw 1 1 0; Draw 0 3 0; Draw 1 6 3; Draw 1 5 9; SDraw 0 0]
+  = [[0; 1]; [0; 1]; [0; 1]; [-1; E_EMPTY]; [-2]; [-2]].
+Proof. vm_compute. reflexivity. Qed.
+
 (* non-vacuity: a history with a FixedAgent that is removed (ghost pointer: further placements refused), a hand-made
    connection followed by move_relative, and a model copy; the performed operations are what the theorem says *)
 Example C19_example_world_refinement :
